@@ -7,9 +7,6 @@ Writing values through pairwise distinct positions and reading them back.
 namespace DM.Lemmas
 open DM.Model
 
-def setAll (e : List Bool) (as : List (Nat × Bool)) : List Bool :=
-  as.foldl (fun e q => e.set q.1 q.2) e
-
 theorem setAll_length (as : List (Nat × Bool)) (e : List Bool) : (setAll e as).length = e.length := by
   induction as generalizing e with
   | nil => rfl
@@ -45,14 +42,8 @@ theorem setAll_getD_mem (as : List (Nat × Bool)) (e : List Bool)
     · have := ih (e.set a.1 a.2) hnd.2 h (by simpa using hp)
       simpa [setAll] using this
 
-/-- the assignments performed by `copy_from_codewords` -/
-def assigns (layout : List (List Nat)) (data : List Nat) : List (Nat × Bool) :=
-  (layout.zip data).flatMap fun p => p.1.zip (bitsMsb p.2)
-
 theorem writeCodewords_eq (e : List Bool) (layout : List (List Nat)) (data : List Nat) :
-    writeCodewords e layout data = setAll e (assigns layout data) := by
-  unfold writeCodewords setAll assigns
-  rw [List.foldl_flatMap]
+    writeCodewords e layout data = setAll e (assigns layout data) := rfl
 
 theorem bitsMsb_length (c : Nat) : (bitsMsb c).length = 8 := by simp [bitsMsb]
 
